@@ -783,12 +783,46 @@ template <class K> struct World {
         if (a->o->stages & 4) { char norm[2] = {a->o->trans == NOTRANS ? '1' : 'I', 0}; R anorm = K::langs(norm, &s.A); K::gscon(norm, &s.L, &s.U, anorm, &a->rcond, &a->stat, &a->info2); }
         if (a->o->stages & 8) K::QuerySpace(&s.L, &s.U, &a->mu);
     }
+    // Size query through the factor routine itself. The caller may still hold live factors in the L, U, Glu it passes (or whatever
+    // an earlier call left in those variables): the query reports an estimate and touches none of them, nor perm_r.
+    void op_pipe_query(Op &o, OpResult &r, bool ilu) {
+        Slot<K> &s = slots[o.slot]; int m = s.m, n = s.n;
+        int fact = (o.fact == SamePattern && s.have_pattern && s.last_cls != XC_NOSPACE) ? SamePattern : DOFACT;
+        if (fact != DOFACT) o.symmode = s.pat_symmode;
+        PipeArgs a; memset(&a.AC, 0, sizeof a.AC); a.haveAC = false; a.s = &s; a.o = &o; a.ilu = ilu; set_options(o, a.opt, ilu); a.opt.Fact = (fact_t)fact;
+        // get_perm_c / sp_preorder are ordinary calls whose outputs the caller keeps apart from the ones its live factors belong to
+        std::vector<int> savePc(s.perm_c, s.perm_c + n), saveEt(s.etree, s.etree + n), savePr(s.perm_r, s.perm_r + m);
+        if (o.colperm == MY_PERMC && fact == DOFACT) make_permc(o.permc_seed, n, s.perm_c);
+        if (!s.haveLU) { memset(&s.L, 0x5B, sizeof s.L); memset(&s.U, 0x5B, sizeof s.U); } // junk in output-only variables
+        Snapshot pre, post; pre.add("L.header", &s.L, sizeof s.L); pre.add("U.header", &s.U, sizeof s.U); pre.add("perm_r", s.perm_r, m * sizeof(int)); if (s.haveLU) snap_lu(s, pre);
+        a.work = nullptr; a.lwork = -1; a.info = -777; a.info2 = -777; r.lwork_used = -1;
+        StatInit(&a.stat);
+        uint64_t steps0 = ctx->steps;
+        rt_op_begin(ctx, (int)trace.size() - 1, o.faults);
+        int esc = guarded(body_pipe_factor, &a);
+        rt_op_end(ctx);
+        r.steps = ctx->steps - steps0; r.escaped = esc;
+        if (esc) { r.cls = esc == ESC_ABORT ? XC_ABORT : XC_HANG; dead = true; viol(r, esc == ESC_ABORT ? "abort" : "hang", ctx->abort_msg); return; }
+        r.info = (long)a.info; r.cls = classify(r.info, n, true, false); r.query_estimate = r.info - n;
+        post.add("L.header", &s.L, sizeof s.L); post.add("U.header", &s.U, sizeof s.U); post.add("perm_r", s.perm_r, m * sizeof(int));
+        { const std::vector<unsigned char> *l0 = pre.get("L.header"), *u0 = pre.get("U.header"); std::string d;
+          if (!l0 || !u0 || memcmp(l0->data(), &s.L, sizeof s.L) != 0 || memcmp(u0->data(), &s.U, sizeof s.U) != 0) d = "L/U header";
+          else { if (s.haveLU) snap_lu(s, post); d = snap_diff(pre, post); }
+          if (!d.empty() && cfg.chk_query_pure) viol(r, "query-mutates", d); }
+        if (!s.ws.intact()) viol(r, "canary", "bytes outside [work, work+lwork) were written");
+        if (!s.haveLU) { memset(&s.L, 0, sizeof s.L); memset(&s.U, 0, sizeof s.U); }
+        memcpy(s.perm_c, savePc.data(), n * sizeof(int)); memcpy(s.etree, saveEt.data(), n * sizeof(int)); memcpy(s.perm_r, savePr.data(), m * sizeof(int));
+        if (cfg.capture) { r.snap.val("info", r.info); r.snap.val("cls", r.cls); }
+        if (a.haveAC) Destroy_CompCol_Permuted(&a.AC);
+        StatFree(&a.stat);
+    }
     void op_pipe(const Op &o0, OpResult &r, bool ilu) {
         Op o = o0; Slot<K> &s = slots[o.slot];
         if (!s.haveA || s.storage != 0) { r.skipped = true; r.skip_reason = "needs a column-stored matrix"; return; }
         int m = s.m, n = s.n; bool query = (o.lwork == -1);
         if (m != n && (o.colperm == MMD_AT_PLUS_A || o.symmode)) { o.colperm = COLAMD; o.symmode = 0; }
         if (ilu && m != n) { r.skipped = true; r.skip_reason = "ILU needs square"; return; }
+        if (query) { op_pipe_query(o, r, ilu); return; }
         // re-factoring through the computational routines, as the expert driver does it internally: Fact = SamePattern keeps perm_c and
         // the etree (no get_perm_c), SamePattern_SameRowPerm also hands L, U, Glu and perm_r back to the factor routine
         int fact = (o.fact == SamePattern || o.fact == SamePattern_SameRowPerm) ? o.fact : DOFACT;
